@@ -424,17 +424,18 @@ static std::string gen_c18(uint64_t seed, uint64_t idx, bool thorough) {
     uint64_t unit;  // typical gap between workload items
     uint64_t warm, fault, quiet, tail;
     if (scen == "hello" || scen == "vss") { unit = 1000000000ULL; warm = r.range(0, 2) * unit + 500000000ULL; fault = r.range(1, 4) * unit; quiet = 3 * unit; tail = 200000000ULL; }
-    else if (scen == "crfL" || scen == "crfT") { unit = 20000000ULL; warm = r.range(0, 3) * unit + 5000000ULL; fault = r.range(1, 4) * unit; quiet = 3 * unit; tail = 100000000ULL; }
+    else if (scen == "crfL" || scen == "crfT") { unit = 20000000ULL; warm = r.range(0, 1) * unit + r.range(1, 8) * 1000000ULL; fault = r.range(1, 2) * unit; quiet = unit + 4000000ULL; tail = 4000000ULL; }
     else if (scen == "cvf" || scen == "aaf") { unit = 500000; warm = r.range(0, 20) * unit + 1000000; fault = r.range(4, 60) * unit; quiet = 12 * unit; tail = 4700000000ULL; }
     else { unit = 200000; warm = r.range(0, 20) * unit + 1000000; fault = r.range(4, 80) * unit; quiet = 40 * unit; tail = 150000000ULL; }
     uint64_t t1 = warm, t2 = warm + fault, t3 = t2 + quiet;
-    uint64_t tend = t3 + tail + 70000000ULL;
+    uint64_t drain = (scen == "crfL" || scen == "crfT") ? 8000000ULL : 60000000ULL;
+    uint64_t tend = t3 + tail + drain + 5000000ULL;
     size_t qcap = (size_t[]){4, 16, 64, 256}[r.below(4)];
     o.line(strf("plan v1 engine=net prop=C18 seed=0x%llx idx=%llu", (unsigned long long)seed, (unsigned long long)idx));
-    o.line(strf("cfg scen=%s udp=%d fd=%d tscf=%d count=%d mtt=%d sched=%s lat=%llu:%llu cost=%llu:%llu qcap=%zu tend=%llu quiet=%llu rseed=0x%llx skew0=%lld skew1=%lld skew2=%lld",
+    o.line(strf("cfg scen=%s udp=%d fd=%d tscf=%d count=%d mtt=%d sched=%s lat=%llu:%llu cost=%llu:%llu qcap=%zu tend=%llu drain=%llu quiet=%llu rseed=0x%llx skew0=%lld skew1=%lld skew2=%lld",
                 scen.c_str(), udp, fd, tscf, count, mtt, sched_str(r).c_str(), (unsigned long long)r.range(1000, 50000),
                 (unsigned long long)r.range(50000, 1000000), (unsigned long long)r.range(50, 500), (unsigned long long)r.range(500, 20000), qcap,
-                (unsigned long long)tend, (unsigned long long)t2, (unsigned long long)rseed, (long long)r.range(0, 20000000) - 10000000,
+                (unsigned long long)tend, (unsigned long long)drain, (unsigned long long)t2, (unsigned long long)rseed, (long long)r.range(0, 20000000) - 10000000,
                 (long long)r.range(0, 20000000) - 10000000, (long long)r.range(0, 20000000) - 10000000));
 
     // ---- valid traffic through the real talker(s)
@@ -523,8 +524,11 @@ static std::string gen_c18(uint64_t seed, uint64_t idx, bool thorough) {
         }
         if (en_stall) {
             int n = (int)r.range(1, 3);
-            for (int i = 0; i < n; i++)
-                o.line(strf("stall t=%llu node=%d dur=%llu", (unsigned long long)r.range(t1, t2), scen == "crfL" ? 2 : 1, (unsigned long long)r.range(unit / 10, unit * 4)));
+            for (int i = 0; i < n; i++) {
+                // a stall ends before the faults stop (the quiet phase promises a listener that is being scheduled)
+                uint64_t ts = r.range(t1, t2 - 1), maxd = std::min<uint64_t>(unit * 4, t2 - ts);
+                o.line(strf("stall t=%llu node=%d dur=%llu", (unsigned long long)ts, scen == "crfL" ? 2 : 1, (unsigned long long)r.range(std::min<uint64_t>(unit / 10, maxd), maxd)));
+            }
         }
     }
     return o.s;
